@@ -59,6 +59,14 @@ func (h *Handler) Provision(ctx caddy.Context) error {
 	repl := caddy.NewReplacer()
 	for _, allowCIDR := range h.Allow {
 		allowCIDR = repl.ReplaceAll(allowCIDR, "")
+		// a plain IP address (e.g. "::1", which private_ranges expands to) is a subnet of one address
+		if ip := net.ParseIP(allowCIDR); ip != nil {
+			if ip.To4() != nil {
+				allowCIDR += "/32"
+			} else {
+				allowCIDR += "/128"
+			}
+		}
 		_, n, err := net.ParseCIDR(allowCIDR)
 		if err != nil {
 			return fmt.Errorf("invalid subnet '%s': %w", allowCIDR, err)
